@@ -14,11 +14,14 @@ the functions `State.exec` runs:
   whenever the fraction it records is exact (`slashExact burn tokens`, see `slash_fraction_closed_form`);
 * `transfer_keeps_tight`: a successful `VS.transfer` through the interpreted `cfg.prog` preserves `TightV` — the two
   hand-written starting infos are tight, everybody else's is untouched;
-* `withdrawMsg_keeps_tight`, `alloc_keeps_tight`: so do reward withdrawals (re-initialisation) and allocations.
+* `withdrawMsg_keeps_tight`, `alloc_keeps_tight`: so do reward withdrawals (re-initialisation) and allocations;
+* `delegate_keeps_tight`: so does staking `Delegate` (the shares issued for the new tokens are truncated, which does not
+  lower the worth of anybody else's shares: `tight_grow`; the delegator itself is re-initialised);
+* `tight_steps_invariant`: induction over ANY chain of these steps.
 
 What is NOT preserved in general (and why no invariant over all of `State.run` exists): `Undelegate` / `BeginRedelegation`
 hand out `TokensFromShares(shares)` ROUNDED (banker's), which can lower the token worth of the remaining shares by less
-than 10⁻¹⁸ relative; `Delegate` issues truncated shares (that direction is harmless).
+than 10⁻¹⁸ relative.
 -/
 namespace FxVerif.Model.C11
 
@@ -344,6 +347,130 @@ theorem transfer_keeps_tight {c : Cfg} (hg : good c = true) {n : Nat} {v v' : VS
         · rw [hso d hdf2 hdt] at hs
           exact hn.2 d si hs
 
+theorem delegatePre_slashes_period {v v1 : VS} {h d c : Nat} (hp : v.delegatePre h d = .ok (v1, c)) :
+    v1.slashes = v.slashes ∧ v1.period = v.period + 1 := by
+  unfold VS.delegatePre at hp
+  split at hp
+  · obtain ⟨sh, si, w1, raw, v3, _, _, h1, _, h3, ev, _⟩ := withdrawRewards_ok hp
+    obtain ⟨_, ev3⟩ := decRef_ok h3
+    have a : v1.slashes = w1.slashes := by rw [ev, ev3]; rfl
+    have b : v1.period = w1.period := by rw [ev, ev3]; rfl
+    rw [a, b]
+    exact ⟨incPeriod_slashes h1, (incPeriod_shape h1).2.2.1⟩
+  · split at hp
+    · cases hp
+    · rename_i w1 e h1
+      cases hp
+      exact ⟨incPeriod_slashes h1, (incPeriod_shape h1).2.2.1⟩
+
+/-- what staking `Delegate` (hooks included) does to the records tightness reads -/
+theorem delegate_shape {n : Nat} {v v' : VS} {h d amt c : Nat} (hd : d < n) (hi : VInv n v)
+    (hx : v.delegate h d amt = .ok (v', c)) :
+    ∃ p newSh, v.period ≤ p ∧ v'.sinfo = setAt v.sinfo d (some ⟨p, v'.tokensFromSharesTrunc newSh, h⟩) ∧
+      v'.del = setAt v.del d (some newSh) ∧ v'.tokens = v.tokens + amt ∧
+      v'.shares = v.shares + (if v.shares = 0 then amt * ONE else v.sharesFromTokens amt) ∧ v'.slashes = v.slashes := by
+  unfold VS.delegate at hx
+  split at hx
+  · cases hx
+  · obtain ⟨r, hpre, hx⟩ := bind_ok hx
+    obtain ⟨v3, h3, hx⟩ := bind_ok hx
+    obtain ⟨v1, c1⟩ := r
+    cases hx
+    obtain ⟨hsl1, hper1⟩ := delegatePre_slashes_period hpre
+    rcases delegatePre_total hi.ri hi.dom (h := h) hd with hE | ⟨v1', c', hw, i1, s1, f1, sf1⟩
+    · rw [hE] at hpre; cases hpre
+    · rw [hw] at hpre
+      cases hpre
+      have iI : RI n (v1.issue d amt) := RI.congr (v := v1) rfl rfl rfl rfl rfl i1
+      have hdelI : (v1.issue d amt).del d = some ((v1.del d).getD 0 +
+          (if v1.shares = 0 then amt * ONE else v1.sharesFromTokens amt)) := by
+        simp [VS.issue, setAt]
+      have hsI : (v1.issue d amt).sinfo d = none := by
+        show v1.sinfo d = none
+        rw [s1]; simp [setAt]
+      obtain ⟨v3', h3', i3, s3, p3, l3, sf3⟩ := initDelegation_total iI (h := h) hd hdelI hsI f1
+      rw [h3'] at h3
+      cases h3
+      obtain ⟨fd, ft, fs⟩ := sf3
+      obtain ⟨gd, gt, gs⟩ := sf1
+      have htok : v'.tokens = v.tokens + amt := by rw [ft]; show v1.tokens + amt = _; rw [gt]
+      have hshr : v'.shares = v.shares + (if v.shares = 0 then amt * ONE else v.sharesFromTokens amt) := by
+        rw [fs]
+        show v1.shares + (if v1.shares = 0 then amt * ONE else v1.sharesFromTokens amt) = _
+        unfold VS.sharesFromTokens
+        rw [gs, gt]
+      refine ⟨(v1.issue d amt).period - 1, (v1.del d).getD 0 + (if v1.shares = 0 then amt * ONE else v1.sharesFromTokens amt),
+        ?_, ?_, ?_, htok, hshr, ?_⟩
+      · show v.period ≤ v1.period - 1
+        omega
+      · rw [s3]
+        show setAt v1.sinfo d _ = _
+        rw [s1, setAt_setAt]
+        have e : (v1.issue d amt).tokensFromSharesTrunc = v'.tokensFromSharesTrunc := by
+          funext x; unfold VS.tokensFromSharesTrunc; rw [ft, fs]
+        rw [e]
+      · rw [fd]
+        show setAt v1.del d _ = _
+        rw [gd]
+      · rw [l3]; show v1.slashes = _; exact hsl1
+
+/-- issuing truncated shares for new tokens does not lower the worth of the existing shares -/
+theorem tight_grow {st S sh T amt : Nat} (hT : 0 < T) (ht : st * S ≤ sh * T * ONE) :
+    st * (S + S * amt / T) ≤ sh * (T + amt) * ONE := by
+  have hq : S * amt / T * T ≤ S * amt := Nat.div_mul_le_self _ _
+  have h1 : st * (S * amt / T) * T ≤ sh * amt * ONE * T := by
+    calc st * (S * amt / T) * T = st * (S * amt / T * T) := Nat.mul_assoc _ _ _
+      _ ≤ st * (S * amt) := Nat.mul_le_mul_left _ hq
+      _ = st * S * amt := (Nat.mul_assoc _ _ _).symm
+      _ ≤ sh * T * ONE * amt := Nat.mul_le_mul_right _ ht
+      _ = sh * amt * ONE * T := by
+        rw [Nat.mul_right_comm (sh * T) ONE amt, Nat.mul_right_comm sh T amt, Nat.mul_right_comm (sh * amt) T ONE]
+  have h2 := Nat.le_of_mul_le_mul_right h1 hT
+  rw [Nat.mul_add, Nat.mul_add, Nat.add_mul]
+  exact Nat.add_le_add ht h2
+
+/-- **delegate_keeps_tight.**  Staking `Delegate` (hooks included) keeps every stake tight: the delegator restarts with the
+truncated worth of its new shares, and the truncated number of shares issued for the new tokens does not lower the worth
+of anybody else's shares -/
+theorem delegate_keeps_tight {n : Nat} {v v' : VS} {h d amt c : Nat} (hd : d < n) (hi : VInv n v) (hT : 0 < v.tokens)
+    (hS : 0 < v.shares) (hx : v.delegate h d amt = .ok (v', c)) (ht : TightV v) (hn : NotFuture v h) :
+    TightV v' ∧ NotFuture v' h := by
+  obtain ⟨p, newSh, hp, hsinfo, hdel, htok, hshr, hsl⟩ := delegate_shape hd hi hx
+  rw [if_neg (by omega)] at hshr
+  constructor
+  · intro e si sh hs hde
+    by_cases hed : e = d
+    · subst hed
+      rw [hsinfo] at hs; simp only [setAt, if_true] at hs; cases hs
+      rw [hdel] at hde; simp only [setAt, if_true] at hde; cases hde
+      have hskip : stakeAfter (v'.since ⟨p, v'.tokensFromSharesTrunc newSh, h⟩) p (v'.tokensFromSharesTrunc newSh) =
+          v'.tokensFromSharesTrunc newSh := by
+        apply stakeAfter_skip
+        intro ev hev
+        have hm : ev ∈ v.slashes := by rw [← hsl]; exact mem_since hev
+        have := hi.ri.eper ev hm
+        show ev.period ≤ p
+        omega
+      rw [hskip]
+      exact tfsTrunc_tight v' newSh
+    · rw [hsinfo] at hs; simp only [setAt, hed, if_false] at hs
+      rw [hdel] at hde; simp only [setAt, hed, if_false] at hde
+      have hsince : v'.since si = v.since si := by unfold VS.since; rw [hsl]
+      rw [hsince, htok, hshr]
+      unfold VS.sharesFromTokens
+      exact tight_grow hT (ht e si sh hs hde)
+  · constructor
+    · intro e he; rw [hsl] at he; exact hn.1 e he
+    · intro e si hs
+      rw [hsinfo] at hs
+      by_cases hed : e = d
+      · subst hed
+        simp only [setAt, if_true] at hs
+        cases hs
+        exact Nat.le_refl _
+      · simp only [setAt, hed, if_false] at hs
+        exact hn.2 e si hs
+
 theorem NotFuture.mono {v : VS} {h h' : Nat} (hn : NotFuture v h) (hle : h ≤ h') : NotFuture v h' :=
   ⟨fun e he => Nat.le_trans (hn.1 e he) hle, fun d si hs => Nat.le_trans (hn.2 d si hs) hle⟩
 
@@ -380,7 +507,8 @@ open FxVerif.Gen.C11 (Cfg)
 /-- the steps of the model that keep stakes tight, chained: from record `v` at height `h` to record `v'` at height `h'`
 through ANY number of — a slash by the model's `VS.slash` whose recorded fraction is exact, a reward allocation
 (`VS.alloc`), a successful reward withdrawal (`VS.withdrawMsg`), a successful share transfer between two accounts through
-the interpreted `cfg.prog` (`VS.transfer c`), a self-transfer (no-op), the passing of blocks (status changes) -/
+the interpreted `cfg.prog` (`VS.transfer c`), a successful staking `Delegate` (hooks included) at a validator with tokens and shares, the passing of
+blocks (status changes) -/
 inductive TightSteps (c : Cfg) (n : Nat) : VS → Nat → VS → Nat → Prop
   | refl (v : VS) (h : Nat) : TightSteps c n v h v h
   | slash {v v' : VS} {h h' : Nat} (power factor : Nat) :
@@ -391,6 +519,8 @@ inductive TightSteps (c : Cfg) (n : Nat) : VS → Nat → VS → Nat → Prop
       TightSteps c n v1 h v' h' → TightSteps c n v h v' h'
   | transfer {v v1 v' : VS} {h h' : Nat} (f t X rf rt : Nat) (recv : Bool) : f < n → t < n → f ≠ t →
       VS.transfer c v h f t X recv = .ok (v1, rf, rt) → TightSteps c n v1 h v' h' → TightSteps c n v h v' h'
+  | delegate {v v1 v' : VS} {h h' : Nat} (d amt r : Nat) : d < n → 0 < v.tokens → 0 < v.shares →
+      v.delegate h d amt = .ok (v1, r) → TightSteps c n v1 h v' h' → TightSteps c n v h v' h'
   | blocks {v v' : VS} {h h' : Nat} (k : Nat) (b ub j : Bool) (u : Nat) :
       TightSteps c n { v with bonded := b, unbonded := ub, ubHeight := u, jailed := j } (h + k) v' h' → TightSteps c n v h v' h'
 
@@ -425,6 +555,10 @@ theorem tight_steps_invariant {c : Cfg} (hg : good c = true) {n : Nat} {v v' : V
       · rw [he] at hx; cases hx
       · rw [hr] at hx; cases hx; exact hv2
     exact ih hv a b
+  | delegate d amt r hd hT hS hx _ ih =>
+    intro hi ht hn
+    obtain ⟨a, b⟩ := delegate_keeps_tight hd hi hT hS hx ht hn
+    exact ih (delegate_VInv hd hx hi) a b
   | @blocks v0 _ h0 _ k b ub j u _ ih =>
     intro hi ht hn
     obtain ⟨a, b'⟩ := tight_congr (v := v0) (w := { v0 with bonded := b, unbonded := ub, ubHeight := u, jailed := j })
